@@ -111,8 +111,17 @@ def gen_string(r, maxlen):
     return s[:maxlen + 8]
 
 
+# tables reached through LaTeX's own commands: (source executed first, assignments that describe the table it must give)
+AT_PRELUDES = [('\\makeatletter ', [['@', 11]]), ('\\makeatletter\\makeatother ', []), ('\\makeatletter\\makeatletter\\makeatother ', []),
+               ('\\catcode`\\@=11 \\makeatletter\\makeatother ', []), ('\\makeatletter{\\makeatletter\\makeatother}', [['@', 11]]),
+               ('\\catcode`\\@=13 \\makeatletter\\makeatother ', []), ('\\makeatother\\makeatletter ', [['@', 11]])]
+
+
 def gen_table(r):
     k = r.random()
+    if k < 0.05:
+        src, assign = r.choice(AT_PRELUDES)
+        return {'base': 'default', 'assign': [list(a) for a in assign], 'prelude': src}
     if k < 0.25:
         return {'base': 'default', 'assign': []}
     if k < 0.35:
@@ -304,7 +313,22 @@ def run(case, st):
         ctx.setVerbatimCatcodes()
     via_source = (spec['base'] == 'default' and spec['assign'] and all(ch in PRIM_SAFE for ch, code in spec['assign'])
                   and common.case_hash(case)[1] % 2 == 0)
-    if via_source:
+    if spec.get('prelude'):
+        # the table is whatever the prelude leaves behind (\makeatletter / \makeatother in their combinations)
+        try:
+            tex.input(spec['prelude'])
+            for _ in tex:
+                pass
+        except common.CaseTimeout:
+            raise
+        except Exception as e:
+            import traceback
+            st.violation('prelude-raises-' + type(e).__name__, case, 'prelude %r: %s' % (spec['prelude'], traceback.format_exc()[-400:]))
+            return {'nontrivial': True}
+        tex.inputs[:] = []
+        st.counters['tables_installed_by_prelude'] += 1
+        st.feature('table-installed-by', 'makeat-prelude')
+    elif via_source:
         # the way a document does it: \catcode`\X=N in the source, executed by the \catcode primitive
         try:
             for ch, code in spec['assign']:
